@@ -27,6 +27,9 @@ func runC19(c *Ctx) {
 	r := c.R
 	clean := m.Func("cmd/gotelemetry", "runClean")
 
+	// a later `env` or library read reports the mode and the date that a mode command recorded
+	c02ModeRead(c, m, "C19.mode-commands")
+
 	// ---- clean effects -----------------------------------------------------
 	effs, chains := m.reachableEffects([]*ssa.Function{clean}, nil)
 	nRemove := 0
